@@ -96,6 +96,9 @@ def eval_case(c):
     # the tidal solution is requested by default, explicitly, or first among several solution types (its radial functions are rows 0..5 in every case)
     SF5 = [None, ('tidal',), ('tidal', 'loading'), ('tidal', 'loading', 'free')][c.get('sub', 0) % 4]
     obs['solve_for'] = None if SF5 is None else list(SF5)
+    # both values of the nondimensionalize option against every request form (found by seed C05-i: default request wrong only for dimensional solves)
+    ND = bool((c.get('sub', 0) // 4) % 2 == 0)
+    obs['nondimensionalize'] = ND
     if c['mon'] == 'theorem':
         layers = make_layers(c, rng)
         Es, Hs, ks = [], [], []
@@ -104,7 +107,7 @@ def eval_case(c):
             # that lies between an interface and the first slice above it shrinks with the spacing
             body = make_grid(layers, R, f * c['N'], c)
             cnt['solves'] += 1
-            s = solve(body, w, l=l, solve_for=SF5, kamata=True, rtol=1e-10, max_steps=400000, keep_result=True)
+            s = solve(body, w, l=l, solve_for=SF5, kamata=True, rtol=1e-10, max_steps=400000, keep_result=True, nondim=ND)
             if not s['success']:
                 return inconclusive(('exception ' + s['exc']) if s['exc'] else 'solver failure: ' + s['message'][:50])
             k = complex(s['love'][0][0])
@@ -158,7 +161,7 @@ def eval_case(c):
         if not viol and len(Es) == 3:
             body = make_grid(layers, R, 4 * c['N'], c)
             cnt['solves'] += 1
-            sp = solve(body, w, l=l, solve_for=SF5, kamata=True, rtol=1e-12, max_steps=800000, keep_result=True, method='DOP853')
+            sp = solve(body, w, l=l, solve_for=SF5, kamata=True, rtol=1e-12, max_steps=800000, keep_result=True, method='DOP853', nondim=ND)
             if not sp['success']:
                 return inconclusive('noise probe failed')
             yp = np.ascontiguousarray(sp['result'][:6])
